@@ -48,7 +48,29 @@ type schedKnobs struct {
 	Aliases  bool  `json:"service_aliases,omitempty"`
 	ChangeAt []int `json:"pct_change_at,omitempty"`
 	Prio     []int `json:"pct_priorities,omitempty"`
+	// AttrServices (server mode): the AttributeConsumingService elements in the metadata of every registered provider, in document
+	// order (nil: one service asking for six attributes; a pointer to an empty list: none at all)
+	AttrServices *[]attrService `json:"attribute_services,omitempty"`
 }
+
+// attrService is one AttributeConsumingService element of a provider's metadata.
+type attrService struct {
+	Default string   `json:"is_default,omitempty"` // the isDefault attribute: "" (absent) | "true" | "false"
+	Attrs   []string `json:"requested,omitempty"`  // Name of each RequestedAttribute, in document order; '#' stands for the run's salt
+}
+
+// attrNamePool: the names providers ask for; attrNameFormat: their name formats (names that are not listed there are of the basic format).
+var attrNamePool = []string{"email", "uid", "e-mail.address", "given_name", "surname", "cn", "groups", "eduPersonAffiliation", "e-mail.#", "u.i.d #", "urn:oid:0.9.2342.19200300.100.1.3"}
+
+var attrNameFormat = map[string]string{
+	"e-mail.address":                    "urn:oasis:names:tc:SAML:2.0:attrname-format:unspecified",
+	"u.i.d #":                           "urn:oasis:names:tc:SAML:2.0:attrname-format:unspecified",
+	"surname":                           "urn:oasis:names:tc:SAML:2.0:attrname-format:unspecified",
+	"urn:oid:0.9.2342.19200300.100.1.3": "urn:oasis:names:tc:SAML:2.0:attrname-format:uri",
+}
+
+// ssoTaskKinds: the requests that make the IdP issue an assertion, and the name under which their provider is registered.
+var ssoTaskKinds = map[string]string{"sso-cookie": "sp1", "sso-login": "sp1", "shortcut": "sp1", "shortcut-suffix": "sp1", "sso-noacs": "sp3"}
 
 type storeOp struct {
 	Op  string `json:"op"` // get put delete list
@@ -150,14 +172,30 @@ func genSched(g *Rng, tier string) *Plan {
 	}
 	k.Aliases = g.Bool(0.3)
 	k.Procs = Pick(g, 0, 0, 1, 1, 2)
+	if g.Bool(0.5) {
+		// the registered metadata lists zero to three attribute consuming services, each with zero to six requested attributes and
+		// its own isDefault marking (absent, false or true - nothing keeps a provider from marking none or several)
+		svcs := make([]attrService, g.PickW(1, 3, 10, 6))
+		for i := range svcs {
+			svcs[i].Default = []string{"", "false", "true"}[g.PickW(6, 2, 2)]
+			for j, n := 0, g.Intn(7); j < n; j++ {
+				svcs[i].Attrs = append(svcs[i].Attrs, attrNamePool[g.Intn(len(attrNamePool))])
+			}
+		}
+		k.AttrServices = &svcs
+	}
 	p.Knobs = mustJSON(k)
 	n := 2 + g.PickW(4, 3, 2)
 	for i := 0; i < n; i++ {
-		// bias towards handlers that touch the registry lock and the store together
+		// bias towards handlers that touch the registry lock and the store together ...
 		var kind string
-		switch g.PickW(4, 6) {
+		switch g.PickW(4, 6, 3) {
 		case 0:
 			kind = Pick(g, "shortcut", "shortcut-suffix", "put-service", "put-service-other", "delete-service", "sso-cookie", "metadata", "list-services", "put-service-rename", "sso-noacs")
+		case 2:
+			// ... and towards requests that are answered with an assertion: they all work from the one registered copy of their
+			// provider's metadata, each without a lock once it has looked it up
+			kind = Pick(g, "sso-cookie", "sso-login", "shortcut", "shortcut-suffix", "sso-noacs")
 		default:
 			kind = serverTaskKinds[g.Intn(len(serverTaskKinds))]
 		}
@@ -205,6 +243,7 @@ type sched struct {
 	misuse       string // the first fatal misuse of a lock (unlocking what is not locked), "" if none
 	progress     int64  // scheduling steps taken (read by run's watchdog goroutine)
 	foreignCalls int    // hook calls made by goroutines the code under test started itself
+	clockReads   int    // readings of the clock by tasks (each one a decision point)
 }
 
 //go:norace
@@ -443,6 +482,18 @@ func (s *sched) yield(label string) {
 	}
 	s.trace = append(s.trace, t.name+":"+label)
 	s.park(t)
+}
+
+// clockRead: a task reads the time (saml.TimeNow) - a decision point like a store operation. Without it a request runs from its last
+// lock or store operation to its reply in one piece, signing included, and by the time another request touches what it wrote on the
+// way the race detector's bounded history of the first access is gone (it then drops the report).
+//
+//go:norace
+func (s *sched) clockRead() {
+	if s.cur != nil {
+		s.clockReads++
+	}
+	s.yield("clock.read")
 }
 
 //go:norace
@@ -789,8 +840,9 @@ var cost4Once sync.Once
 func execSched(t *testing.T, p *Plan) *Result {
 	res := newResult()
 	k := decode[schedKnobs](p.Knobs)
-	saml.TimeNow = func() time.Time { return time.Date(2000, 1, 1, 0, 0, 0, 0, time.UTC) }
 	s := &sched{back: make(chan struct{}), limit: 10000, pct: k.Strategy == "pct", changes: map[int]bool{}}
+	// the clock never moves, but reading it is a decision point: a request may be overtaken between any two of its readings
+	saml.TimeNow = func() time.Time { s.clockRead(); return time.Date(2000, 1, 1, 0, 0, 0, 0, time.UTC) }
 	s.rng = mrand.New(mrand.NewPCG(k.SchedSeed, 0x5eed))
 	if p.Schedule != nil {
 		s.replay = p.Schedule
@@ -830,6 +882,7 @@ func execSched(t *testing.T, p *Plan) *Result {
 	res.Schedule = append([]int(nil), s.picks...)
 	res.Log = append(res.Log, s.trace...)
 	res.Extra["sched_steps"] += s.steps
+	res.Extra["clock_read_decision_points"] += s.clockReads
 	if s.foreignCalls > 0 {
 		res.Extra["foreign_goroutine_calls"] += s.foreignCalls
 		res.probe("code-under-test-started-goroutines")
@@ -893,7 +946,29 @@ func taskKind(name string) string {
 // requests is then written anew in every run, not only in a process's first)
 var c20Salt uint64
 
-func spMetadataXML(base string) []byte {
+// attrServicesOf builds the AttributeConsumingService elements a plan asks for.
+func attrServicesOf(layout []attrService) []saml.AttributeConsumingService {
+	out := []saml.AttributeConsumingService{}
+	for i, sv := range layout {
+		acs := saml.AttributeConsumingService{Index: i + 1, ServiceNames: []saml.LocalizedName{{Lang: "en", Value: fmt.Sprintf("app-%d", i+1)}}}
+		switch sv.Default {
+		case "true", "false":
+			v := sv.Default == "true"
+			acs.IsDefault = &v
+		}
+		for _, name := range sv.Attrs {
+			nf := attrNameFormat[name]
+			if nf == "" {
+				nf = "urn:oasis:names:tc:SAML:2.0:attrname-format:basic"
+			}
+			acs.RequestedAttributes = append(acs.RequestedAttributes, saml.RequestedAttribute{Attribute: saml.Attribute{Name: strings.ReplaceAll(name, "#", fmt.Sprint(c20Salt)), NameFormat: nf}})
+		}
+		out = append(out, acs)
+	}
+	return out
+}
+
+func spMetadataXML(base string, layout *[]attrService) []byte {
 	spv := newSP(base, rsaKeys[1], "", idpMetadataFor("https://idp.example.com/metadata", "https://idp.example.com/sso", "", []KeyPair{rsaKeys[0]}, nil, "signing"))
 	md := spv.Metadata()
 	// the provider asks for attributes by name (basic / unspecified name formats), as many deployments do
@@ -906,6 +981,9 @@ func spMetadataXML(base string) []byte {
 			{Attribute: saml.Attribute{Name: fmt.Sprintf("e-mail.%d", c20Salt), NameFormat: "urn:oasis:names:tc:SAML:2.0:attrname-format:basic"}},
 			{Attribute: saml.Attribute{Name: fmt.Sprintf("u.i.d %d", c20Salt), NameFormat: "urn:oasis:names:tc:SAML:2.0:attrname-format:unspecified"}},
 		}}}
+	if layout != nil {
+		md.SPSSODescriptors[0].AttributeConsumingServices = attrServicesOf(*layout)
+	}
 	b, err := xml.Marshal(md)
 	if err != nil {
 		panic(err)
@@ -922,8 +1000,9 @@ func setupServerMode(p *Plan, s *sched, res *Result) func() {
 		panic(err)
 	}
 	c20Salt = p.Run
-	md1 := spMetadataXML("https://sp1.example.com")
-	md2 := spMetadataXML("https://sp2.example.com")
+	layout := decode[schedKnobs](p.Knobs).AttrServices
+	md1 := spMetadataXML("https://sp1.example.com", layout)
+	md2 := spMetadataXML("https://sp2.example.com", layout)
 	if r := deliver(srv, "PUT", "https://idp.example.com/services/sp1", string(md1), "", nil); r.Code != 204 {
 		panic(fmt.Sprintf("setup: put service: %d", r.Code))
 	}
@@ -940,6 +1019,9 @@ func setupServerMode(p *Plan, s *sched, res *Result) func() {
 	md3v.SPSSODescriptors[0].AssertionConsumerServices = []saml.IndexedEndpoint{
 		{Binding: saml.HTTPPostBinding, Location: "https://sp3.example.com/saml/acs", Index: 2},
 		{Binding: saml.HTTPPostBinding, Location: "https://sp3.example.com/saml/acs-one", Index: 1},
+	}
+	if layout != nil {
+		md3v.SPSSODescriptors[0].AttributeConsumingServices = attrServicesOf(*layout)
 	}
 	md3, err := xml.Marshal(md3v)
 	if err != nil {
@@ -1061,12 +1143,40 @@ func setupServerMode(p *Plan, s *sched, res *Result) func() {
 	}
 	return func() {
 		wg.Wait() // real synchronisation edge: task results become visible to the checker
+		// provider -> requests of this run that were answered with an assertion
+		issued := map[string]int{}
 		for i, raw := range p.Steps {
 			tk := decode[schedTask](raw)
 			r := results[i]
 			res.logf("t%d:%s -> %d", i, tk.Kind, r.code)
 			if r.code < 100 || r.code > 599 {
 				res.violate(i, "no-reply", "C20/no-reply/"+tk.Kind, "exactly one well-formed reply", fmt.Sprint(r.code), "")
+			}
+			if sp := ssoTaskKinds[tk.Kind]; sp != "" && r.code == 200 && strings.Contains(r.body, `name="SAMLResponse"`) {
+				issued[sp]++
+			}
+		}
+		// reached: assertions issued to one provider by two or more requests of one run (they all read the one registered copy of
+		// its metadata), by the shape of the attribute consuming services in that metadata
+		if issued["sp1"] >= 2 || issued["sp3"] >= 2 {
+			res.Extra["runs_issuing_2+_assertions_to_one_provider"]++
+			if layout != nil {
+				shape, marked := fmt.Sprintf("%d-attribute-services", len(*layout)), 0
+				for _, sv := range *layout {
+					if sv.Default == "true" {
+						marked++
+					}
+				}
+				switch {
+				case len(*layout) == 0:
+				case marked == 0:
+					shape += "-none-default"
+				case marked == 1:
+					shape += "-one-default"
+				default:
+					shape += "-several-default"
+				}
+				res.probe("2+-assertions-to-one-provider/" + shape)
 			}
 		}
 		// every request has completed: whatever order the management calls took effect in, the running server and a server
@@ -1258,10 +1368,10 @@ func init() {
 	simsync.H = hookDispatch{}
 	register(&Profile{
 		ID: "C20", Name: "sched", Level: "exploration", NoBubble: true,
-		Rule: "each run: 2-4 concurrent tasks, each one HTTP request drawn from every samlidp.Server handler (server mode, 80%) or 2-4 clients x <=6 Get/Put/Delete/List operations on MemoryStore (store mode, 25%; a third of those: keys of several collections already present, one client changing them in a fixed order while others list a prefix spanning the collections, PCT with an explicit change point inside the listing), interleaved by a seeded cooperative scheduler (uniform random walk or PCT priorities with 1-3 change points; round-robin after step 4000 so that the step limit is only reached by a task that cannot finish under a fair schedule) at every lock acquisition and every typed sync/atomic operation (scheduler-aware RWMutex model and atomic wrappers in a rewritten scratch copy) and every store-operation boundary; oracles: deadlock/no-progress, Go race detector under the controlled schedule, porcupine linearizability of store histories, one reply and no panic per request; non-trivial = at least one task was pre-empted; distinct = distinct abstract trace (task kinds, lock/store events in schedule order, reply codes); the process's GOMAXPROCS is 1, 2 or unchanged per run; a task that neither finishes nor reaches a decision point for 20 s of wall-clock time is blocked for good (violation no-progress/blocked); goroutines the code under test starts itself are not tasks (their lock and store operations go straight to the real primitives, Extra foreign_goroutine_calls) but stay under the race detector; in 30% of server runs two more service names carry sp1's entity ID; after all requests completed the running server must register exactly what a server re-created over the same store registers",
+		Rule: "each run: 2-4 concurrent tasks, each one HTTP request drawn from every samlidp.Server handler (server mode, 80%) or 2-4 clients x <=6 Get/Put/Delete/List operations on MemoryStore (store mode, 25%; a third of those: keys of several collections already present, one client changing them in a fixed order while others list a prefix spanning the collections, PCT with an explicit change point inside the listing), interleaved by a seeded cooperative scheduler (uniform random walk or PCT priorities with 1-3 change points; round-robin after step 4000 so that the step limit is only reached by a task that cannot finish under a fair schedule) at every lock acquisition and every typed sync/atomic operation (scheduler-aware RWMutex model and atomic wrappers in a rewritten scratch copy) and every store-operation boundary; oracles: deadlock/no-progress, Go race detector under the controlled schedule, porcupine linearizability of store histories, one reply and no panic per request; non-trivial = at least one task was pre-empted; distinct = distinct abstract trace (task kinds, lock/store events in schedule order, reply codes); the process's GOMAXPROCS is 1, 2 or unchanged per run; a task that neither finishes nor reaches a decision point for 20 s of wall-clock time is blocked for good (violation no-progress/blocked); goroutines the code under test starts itself are not tasks (their lock and store operations go straight to the real primitives, Extra foreign_goroutine_calls) but stay under the race detector; in 30% of server runs two more service names carry sp1's entity ID; after all requests completed the running server must register exactly what a server re-created over the same store registers; in half of the server runs every registered provider's metadata lists 0-3 AttributeConsumingService elements (each with 0-6 RequestedAttribute elements drawn from a pool of names and its own isDefault marking: absent, false or true) instead of the single six-attribute service, and the task mix leans towards requests that are answered with an assertion (probe 2+-assertions-to-one-provider/<shape>: two or more requests of one run were issued an assertion for the same provider); every reading of the clock (saml.TimeNow) by a task is a decision point as well (Extra clock_read_decision_points)",
 		Gen:  genSched, Exec: execSched, Simplify: simplifySched,
 		RunsQuick: 3000, RunsThorough: 300000,
-		Assumptions: []string{"lock model from the sync documentation: a writer that has called Lock blocks later RLock calls until it has acquired and released", "granularity: lock acquisitions and store operations; code between two such points runs atomically in the simulation (the race detector still sees unsynchronised accesses across tasks)", "porcupine Unknown (30 s) is inconclusive and never reported"},
+		Assumptions: []string{"lock model from the sync documentation: a writer that has called Lock blocks later RLock calls until it has acquired and released", "granularity: lock acquisitions, store operations and readings of the clock; code between two such points runs atomically in the simulation (the race detector still sees unsynchronised accesses across tasks)", "a race report needs the earlier access to be within the detector's per-goroutine history (GORACE history_size=7, the maximum): an unsynchronised access followed by more than some 10^5 instrumented events of the same request before the other request's access is not reported", "porcupine Unknown (30 s) is inconclusive and never reported"},
 		Components: map[string][]string{
 			"real": {"samlidp.Server and all handlers", "samlidp.MemoryStore", "saml.IdentityProvider", "net/http ServeMux", "Go race detector"},
 			"stub": {"simsync.RWMutex lock model (real sync.RWMutex inside, locked only when the model grants)", "cooperative scheduler", "schedStore yield wrapper"},
